@@ -31,6 +31,9 @@ func (x Expr) MustRemove(data any) any {
 	if len(sx) == 0 {
 		sx = Expr{Root(0)}
 	}
+	if tf, ok := last.(*Filter); ok { // $ rooted operands need the document
+		return sx.modify(data, func(e any) (any, bool) { return tf.removeRoot(data, e) }, false)
+	}
 	if r, ok := last.(remover); ok {
 		return sx.modify(data, r.remove, false)
 	}
@@ -51,6 +54,9 @@ func (x Expr) MustRemoveOne(data any) any {
 	sx := x[:len(x)-1]
 	if len(sx) == 0 {
 		sx = Expr{Root(0)}
+	}
+	if tf, ok := last.(*Filter); ok { // $ rooted operands need the document
+		return sx.modify(data, func(e any) (any, bool) { return tf.removeOneRoot(data, e) }, true)
 	}
 	if r, ok := last.(oneRemover); ok {
 		return sx.modify(data, r.removeOne, true)
